@@ -199,8 +199,25 @@ func runC17(c *Ctx) {
 					okOfReturned = mk("extract", "1", termOf(lk))
 				}
 			}
+			// dropping the count's entry because the decremented value is 0 is the same change (n → gone instead of
+			// n → 0 → gone)
+			dropsAtZero := func(x ssa.Instruction) bool {
+				cc, ok := x.(ssa.CallInstruction)
+				if !ok || nm.op != "-" {
+					return false
+				}
+				bi, isB := cc.Common().Value.(*ssa.Builtin)
+				if !isB || bi.Name() != "delete" || len(cc.Common().Args) != 2 || termOf(cc.Common().Args[0]).lastField() != "mutexRefsMap" {
+					return false
+				}
+				_, zero := hasFact(fx.FactsAt(x), func(f Fact) bool {
+					return f.Pol && f.T.Op == "bin" && f.T.Name == "==" && len(f.T.Args) == 2 && f.T.Args[1].String() == "const:0" &&
+						f.T.Args[0].contains(func(t *Term) bool { return t.Op == "lookup" && t.Args[0].lastField() == "mutexRefsMap" })
+				})
+				return zero
+			}
 			_, path, found := reachAvoiding([]cfgPos{entryPos(fn)}, func(x ssa.Instruction) bool { return x == ssa.Instruction(ret) }, func(x ssa.Instruction) bool {
-				return len(upd) == 1 && instrPos(x) == upd[0].Pos && x.Block() == upd[0].Block
+				return (len(upd) == 1 && instrPos(x) == upd[0].Pos && x.Block() == upd[0].Block) || dropsAtZero(x)
 			}, func(from, to *ssa.BasicBlock) bool {
 				if okOfReturned == nil {
 					return true
@@ -346,10 +363,11 @@ func runC17(c *Ctx) {
 		// consumer has established one of the two phases (directly, through slices.Contains on the phase, or
 		// through a predicate helper all of whose accepting paths did)
 		cnt := 0
-		for _, in := range instrsIn(syncForPods, func(in ssa.Instruction) bool {
+		for _, dh := range p.deepFind(syncForPods, func(in ssa.Instruction) bool {
 			mu, ok := in.(*ssa.MapUpdate)
 			return ok && strings.Contains(typeKey(mu.Map.Type()), "[]*k8s.io/api/core/v1.Pod")
-		}) {
+		}, 2) {
+			in := dh.In
 			isPhase := func(fs FactSet) bool {
 				_, ok := fs.find(func(f Fact) bool {
 					if !f.Pol {
